@@ -387,3 +387,94 @@ M('c19-twin-bound-early-return', 'C19', 'silent',
             self._add_client()''', '''        if self.pool_size and len(self.pool) >= self.pool_size:
             return
         self._add_client()''', 1))
+
+# ---------------------------------------------------------------- C11
+PP = 'slimta/relay/pipe.py'
+SR = 'slimta/relay/smtp/__init__.py'
+MX = 'slimta/relay/smtp/mx.py'
+M('c11-pipe-returns-error', 'C11', 'fire:N1',
+  (PP, '''        if error is not None:
+            raise error
+        return None''', '''        return error''', 1))
+M('c11-http-sets-exception-object', 'C11', 'fire:N1',
+  (HT, '''            result.set_exception(exc)''', '''            result.set(exc)''', 1))
+M('c11-banner-unchecked', 'C11', 'fire:N2',
+  (RC, '''        if banner.is_error():
+            raise SmtpRelayError.factory(banner)''', '''        pass''', 1))
+M('c11-data-reply-unchecked', 'C11', 'fire:N2',
+  (RC, '''        if data.is_error():
+            raise SmtpRelayError.factory(data)''', '', 1))
+M('c11-mailfrom-discarded', 'C11', 'fire:N2',
+  (RC, '''            mailfrom = self.client.mailfrom(sender, auth=False)
+        if mailfrom and mailfrom.is_error():
+            raise SmtpRelayError.factory(mailfrom)
+        return mailfrom''', '''            self.client.mailfrom(sender, auth=False)
+        return Reply('250', 'ok')''', 1))
+M('c11-set-in-error-arm', 'C11', 'fire:N3',
+  (RC, '''        except SmtpRelayError as e:
+            result.set_exception(e)
+            self._rset()
+        else:''', '''        except SmtpRelayError as e:
+            msg_result = None
+            self._rset()
+        if True:''', 1))
+M('c11-rejected-rcpt-not-recorded', 'C11', 'fire:N3',
+  (RC, '''            if rcpt_reply.is_error():
+                rcpt_results[rcpt] = SmtpRelayError.factory(rcpt_reply)''',
+   '''            pass''', 1))
+M('c11-lmtp-error-as-success', 'C11', 'fire:N3',
+  (LC, '''            if reply.is_error():
+                rcpt_results[rcpt] = SmtpRelayError.factory(reply)
+                had_errors = True
+            else:
+                rcpt_results[rcpt] = reply''', '''            rcpt_results[rcpt] = reply''', 1))
+M('c11-overwrite-failures', 'C11', 'fire:N3',
+  (RC, '''                if value is None:
+                    rcpt_results[key] = msg_result''',
+   '''                rcpt_results[key] = msg_result''', 1))
+M('c11-http-any-status-ok', 'C11', 'fire:N3',
+  (HT, '''        if status.startswith('2'):
+            result.set(smtp_reply)
+        else:''', '''        if smtp_reply is None or not smtp_reply.is_error():
+            result.set(smtp_reply)
+        else:''', 1))
+M('c11-pipe-ignores-status', 'C11', 'fire:N3',
+  (PP, '''        if p.returncode != 0:
+            # raise_error()''', '''        if stderr:
+            # raise_error()''', 1))
+M('c11-factory-inverted', 'C11', 'fire:N4',
+  (SR, '''        if reply.code[0] == '5':''', '''        if reply.code[0] == '4':''', 1))
+M('c11-dns-error-permanent', 'C11', 'fire:N4',
+  (MX, '''                msg = 'DNS lookup failed'
+                reply = Reply('451', '4.4.3 '+msg)
+                raise TransientRelayError(msg, reply)''',
+   '''                msg = 'DNS lookup failed'
+                reply = Reply('551', '5.4.3 '+msg)
+                raise PermanentRelayError(msg, reply)''', 1))
+M('c11-maildrop-tempfail-permanent', 'C11', 'fire:N4',
+  (PP, '''            error_msg = stderr[10:].rstrip()
+        if status == self.EX_TEMPFAIL:''', '''            error_msg = stderr[10:].rstrip()
+        if status != self.EX_TEMPFAIL:''', 1))
+M('c11-smtperror-arm-dropped', 'C11', 'fire:N5',
+  (RC, '''        except SmtpError as e:
+            if not result.ready():
+                reply = self._get_error_reply(e)
+                relay_error = SmtpRelayError.factory(reply)
+                result.set_exception(relay_error)
+''', '''        except SmtpError as e:
+            pass
+''', 1))
+M('c11-bytes-not-decoded', 'C11', 'fire:N6',
+  (PP, '''            if isinstance(stdout, bytes):
+                stdout = stdout.decode('utf-8', 'replace')
+            if isinstance(stderr, bytes):
+                stderr = stderr.decode('utf-8', 'replace')
+''', '', 1))
+M('c11-twin-check-inline', 'C11', 'silent',
+  (RC, '''        if banner.is_error():
+            raise SmtpRelayError.factory(banner)''',
+   '''        self._raise_if_error(banner)
+
+    def _raise_if_error(self, reply):
+        if reply.is_error():
+            raise SmtpRelayError.factory(reply)''', 1))
